@@ -197,16 +197,16 @@ class Gen(object):
                 fs.append({"name": "Certificate Type", "v": "X_509"})
             elif k == 10:
                 fs.append({"name": "Unique Identifier", "v": str(self.uid())})
-            elif k == 11 and tuple(ver) >= (1, 4):
-                fs.append({"name": "Sensitive", "v": r.random() < 0.5})
+            elif k == 11:
+                fs.append({"name": "Sensitive", "v": r.random() < 0.5})      # under every version: before 1.4 it must be refused
             else:
                 fs.append({"name": "Initial Date", "v": int(D.CLOCK.now) - r.randrange(0, 12) if r.random() < 0.92
                            else r.choice([0, 253402300800, 10 ** 17, 2 ** 31 - 1])})      # also dates far outside the calendar
         p = {"filters": fs}
         if r.random() < 0.35:
-            p["offset"] = r.randrange(0, 4)
+            p["offset"] = r.randrange(0, 4) if r.random() < 0.9 else r.choice([-2, -3])      # (-1 stands for "absent")
         if r.random() < 0.35:
-            p["max"] = r.randrange(0, 4)
+            p["max"] = r.randrange(0, 4) if r.random() < 0.9 else r.choice([-2, -3])
         return ("Locate", p)
 
     def attr_op(self, ver):
